@@ -749,6 +749,7 @@ func TestVerifAlphWatch(t *testing.T) {
 	if part == "c09" || part == "all" {
 		g.genC09()
 	}
+	g.emit("end end") // lets the check tell a complete case file from one cut short
 	keys := make([]string, 0, len(g.dist))
 	for k := range g.dist {
 		keys = append(keys, k)
